@@ -6,6 +6,7 @@ import (
 	"math"
 	"runtime"
 	"strings"
+	"syscall"
 	"time"
 
 	"verif/mon/internal/ev"
@@ -22,6 +23,8 @@ import (
 func init() { register("C14", runC14, replayC14) }
 
 const (
+	c14CPUFloorMs  = 1000.0 // rungs using less thread CPU time are not used for CPU exponents
+	c14CPUAbsMs    = 5000.0 // "... or run for seconds": <= 512 bytes of input must not need more thread CPU time than this
 	c14NoiseFloor  = 8 << 20  // rungs allocating less are not used for exponents
 	c14StopAbove   = 1 << 30  // a ladder stops climbing once a rung allocates more
 	c14AbsBytes    = 512      // "a few hundred bytes"
@@ -165,6 +168,76 @@ func families() []family {
 			build: func(u *gen.Universe, n int) (string, []string) {
 				return chain(u, n, "AND", func(i int, id string) string { return "((" + id + "))" }), short
 			}},
+		{name: "and_of_and_groups", fns: allFns, quick: geo(15, 60, 250, 700), thor: geo(15, 60, 250, 1000, 3000),
+			build: func(u *gen.Universe, n int) (string, []string) {
+				var g []string
+				for i := 0; i < n; i++ {
+					g = append(g, "("+idAt(u, 2*i)+" AND "+idAt(u, 2*i+1)+")")
+				}
+				return strings.Join(g, " AND "), short
+			}},
+		{name: "or_of_or_groups", fns: allFns, quick: geo(15, 60, 250, 700), thor: geo(15, 60, 250, 1000, 3000),
+			build: func(u *gen.Universe, n int) (string, []string) {
+				var g []string
+				for i := 0; i < n; i++ {
+					g = append(g, "("+idAt(u, 3*i)+" OR "+idAt(u, 3*i+1)+" OR "+idAt(u, 3*i+2)+")")
+				}
+				return strings.Join(g, " OR "), short
+			}},
+		{name: "balanced_and", fns: allFns, quick: geo(16, 64, 256, 1024), thor: geo(16, 64, 256, 1024, 4096),
+			build: func(u *gen.Universe, n int) (string, []string) {
+				var mk func(lo, hi int) string
+				mk = func(lo, hi int) string {
+					if hi-lo == 1 {
+						return idAt(u, lo)
+					}
+					m := (lo + hi) / 2
+					return "(" + mk(lo, m) + " AND " + mk(m, hi) + ")"
+				}
+				return mk(0, n), short
+			}},
+		{name: "balanced_or", fns: allFns, quick: geo(16, 64, 256, 1024), thor: geo(16, 64, 256, 1024, 4096),
+			build: func(u *gen.Universe, n int) (string, []string) {
+				var mk func(lo, hi int) string
+				mk = func(lo, hi int) string {
+					if hi-lo == 1 {
+						return idAt(u, lo)
+					}
+					m := (lo + hi) / 2
+					return "(" + mk(lo, m) + " OR " + mk(m, hi) + ")"
+				}
+				return mk(0, n), short
+			}},
+		{name: "deep_parens_each_term", fns: allFns, quick: geo(15, 60, 250, 700), thor: geo(15, 60, 250, 1000, 3000),
+			build: func(u *gen.Universe, n int) (string, []string) {
+				return chain(u, n, "OR", func(i int, id string) string { return strings.Repeat("(", 8) + id + strings.Repeat(")", 8) }), short
+			}},
+		{name: "spaced_chain", fns: allFns, quick: geo(15, 60, 250, 500), thor: geo(15, 60, 250, 1000, 2000),
+			build: func(u *gen.Universe, n int) (string, []string) {
+				return strings.ReplaceAll(chain(u, n, "AND", nil), " ", strings.Repeat(" ", 40)), short
+			}},
+		{name: "mixed_case_chain", fns: allFns, quick: geo(30, 120, 500, 1500), thor: geo(30, 120, 500, 2000, 8000),
+			build: func(u *gen.Universe, n int) (string, []string) {
+				return chain(u, n, "OR", func(i int, id string) string {
+					if i%2 == 0 {
+						return strings.ToUpper(id)
+					}
+					return strings.ToLower(id)
+				}), []string{"mit", "APACHE-2.0"}
+			}},
+		{name: "family_chain", fns: allFns, quick: geo(20, 80, 320, 900), thor: geo(20, 80, 320, 1300, 4000),
+			build: func(u *gen.Universe, n int) (string, []string) {
+				// every term is a member of a version family, the allowed entries are '+' forms: range comparisons dominate
+				var e []string
+				for i := 0; i < n; i++ {
+					e = append(e, u.InTable[(i*3)%len(u.InTable)])
+				}
+				return strings.Join(e, " AND "), []string{"GPL-1.0+", "Apache-1.0+", "CC-BY-1.0+", "LGPL-2.0+", "OLDAP-1.1+", "MPL-1.0+"}
+			}},
+		{name: "error_at_end", fns: allFns, quick: geo(30, 120, 500, 1500), thor: geo(30, 120, 500, 2000, 8000),
+			build: func(u *gen.Universe, n int) (string, []string) {
+				return chain(u, n, "AND", func(i int, id string) string { return u.SynthBase[i%len(u.SynthBase)] + "-or-later" }) + " AND NOT-A-LICENSE", short
+			}},
 		{name: "long_allowed", fns: []string{"Satisfies", "ValidateLicenses"}, quick: geo(30, 120, 500, 1500), thor: geo(30, 120, 500, 2000, 8000),
 			build: func(u *gen.Universe, n int) (string, []string) { return "MIT OR GPL-2.0-only", firstN(u, n) }},
 		{name: "long_allowed_duplicates", fns: []string{"Satisfies", "ValidateLicenses"}, quick: geo(30, 120, 500, 1500), thor: geo(30, 120, 500, 2000, 8000),
@@ -232,7 +305,17 @@ type measurement struct {
 	Alloc   uint64  `json:"alloc_bytes"`
 	Mallocs uint64  `json:"mallocs"`
 	WallMs  float64 `json:"wall_ms"`
+	CPUMs   float64 `json:"thread_cpu_ms"` // CPU time of the calling OS thread only (RUSAGE_THREAD): insensitive to machine load and to GC worker threads
 	Outcome string  `json:"outcome"`
+}
+
+// threadCPU returns the CPU time (user+system) consumed so far by the calling OS thread.
+func threadCPU() time.Duration {
+	var ru syscall.Rusage
+	if err := syscall.Getrusage(1 /* RUSAGE_THREAD */, &ru); err != nil {
+		return 0
+	}
+	return time.Duration(ru.Utime.Nano() + ru.Stime.Nano())
 }
 
 // measure runs one call and returns what it allocated.
@@ -243,7 +326,10 @@ func measure(c *Ctx, fn, expr string, list []string) measurement {
 	var m0, m1 runtime.MemStats
 	var outcome string
 	runtime.GC()
+	runtime.LockOSThread()
+	defer runtime.UnlockOSThread()
 	runtime.ReadMemStats(&m0)
+	c0 := threadCPU()
 	t0 := time.Now()
 	switch fn {
 	case "Satisfies":
@@ -275,8 +361,10 @@ func measure(c *Ctx, fn, expr string, list []string) measurement {
 		}
 	}
 	wall := time.Since(t0)
+	cpu := threadCPU() - c0
 	runtime.ReadMemStats(&m1)
-	return measurement{Bytes: in, Alloc: m1.TotalAlloc - m0.TotalAlloc, Mallocs: m1.Mallocs - m0.Mallocs, WallMs: float64(wall.Microseconds()) / 1000, Outcome: trunc(outcome, 60)}
+	return measurement{Bytes: in, Alloc: m1.TotalAlloc - m0.TotalAlloc, Mallocs: m1.Mallocs - m0.Mallocs, WallMs: float64(wall.Microseconds()) / 1000,
+		CPUMs: float64(cpu.Microseconds()) / 1000, Outcome: trunc(outcome, 60)}
 }
 
 func famKey(f family, fn, kind string) string {
@@ -311,6 +399,31 @@ func runLadder(c *Ctx, f family, fn string, rungs []int) {
 				fn, m.Bytes, f.name, n, m.Alloc>>20, c14AbsLimit>>20, c14AbsBytes, m.WallMs, trunc(expr, 80))
 			violated = true
 		}
+		c.Max("thread_cpu_ms_"+f.name, int64(m.CPUMs))
+		if m.Bytes <= c14AbsBytes && m.CPUMs > c14CPUAbsMs {
+			c.Violation(famKey(f, fn, "cpu-absolute"), "C14.ladder", C14Case{Family: f.name, Fn: fn, N: []int{n}},
+				"%s on the %d-byte input %s(n=%d) used %.0f ms of CPU time on its thread (> %.0f ms allowed for inputs of <= %d bytes)", fn, m.Bytes, f.name, n, m.CPUMs, c14CPUAbsMs, c14AbsBytes)
+			violated = true
+		}
+		if k := len(ms); k >= 2 && m.CPUMs >= c14CPUFloorMs {
+			for j := k - 2; j >= 0; j-- {
+				p := ms[j]
+				if p.Bytes == 0 || float64(m.Bytes) < 3*float64(p.Bytes) {
+					continue
+				}
+				// a smaller rung that was too fast to measure counts as 1 ms: that only lowers the exponent
+				d := math.Log(m.CPUMs/math.Max(p.CPUMs, 1)) / math.Log(float64(m.Bytes)/float64(p.Bytes))
+				c.Max("cpu_exponent_x100_"+f.name, int64(d*100))
+				c.Inc("cpu_exponents_measured")
+				if d > c14MaxExponent {
+					c.Violation(famKey(f, fn, "cpu-growth"), "C14.ladder", C14Case{Family: f.name, Fn: fn, N: []int{p.N, n}},
+						"%s on family %s: input %d -> %d bytes (n=%d -> %d) made thread CPU time grow %.0f -> %.0f ms: exponent %.1f > %.1f",
+						fn, f.name, p.Bytes, m.Bytes, p.N, n, p.CPUMs, m.CPUMs, d, c14MaxExponent)
+					violated = true
+				}
+				break
+			}
+		}
 		if k := len(ms); k >= 2 && m.Alloc >= c14NoiseFloor {
 			// compare with the closest earlier rung whose input is at least 3x smaller: a span that wide keeps
 			// one-off effects (a slice capacity doubling between two neighbouring rungs) from mimicking a high exponent
@@ -334,7 +447,7 @@ func runLadder(c *Ctx, f family, fn string, rungs []int) {
 				break
 			}
 		}
-		if violated || m.Alloc > c14StopAbove {
+		if violated || m.Alloc > c14StopAbove || m.CPUMs > 20000 {
 			break
 		}
 	}
@@ -394,6 +507,10 @@ func judgeAbsolute(c *Ctx, cs C14Case) {
 	c.Max("absolute_max_alloc_bytes", int64(m.Alloc))
 	if strings.HasPrefix(m.Outcome, "panic") {
 		return // C03's business
+	}
+	c.Max("absolute_max_thread_cpu_ms", int64(m.CPUMs))
+	if m.Bytes <= c14AbsBytes && m.CPUMs > c14CPUAbsMs {
+		c.Violation("cpu-absolute:random:"+cs.Fn+":"+trunc(expr, 40), "C14.absolute", cs, "%s on a %d-byte input used %.0f ms of thread CPU time (> %.0f ms): %q with %q", cs.Fn, m.Bytes, m.CPUMs, c14CPUAbsMs, expr, list)
 	}
 	if m.Bytes <= c14AbsBytes && m.Alloc > c14AbsLimit {
 		c.Violation("absolute:random:"+cs.Fn+":"+trunc(expr, 40), "C14.absolute", cs, "%s on a %d-byte input allocated %d MiB (> %d MiB): %q with %q", cs.Fn, m.Bytes, m.Alloc>>20, c14AbsLimit>>20, expr, list)
